@@ -151,7 +151,12 @@ impl Fam for SplitFam {
             _ => DPat::S(rng.pick(DELIMS).to_string()),
         };
         let ds = delim.as_string();
-        let n = if rng.chance(1, 10) { rng.range(0, 1) } else { rng.range(0, maxlen) };
+        let n = match rng.below(40) {
+            0..=3 => rng.range(0, 1),
+            // occasionally long texts
+            4 => *rng.pick(&[40usize, 70, 140, 300]),
+            _ => rng.range(0, maxlen),
+        };
         let mut text = String::new();
         let mut count = 0;
         if !ds.is_empty() && rng.chance(1, 12) {
